@@ -68,7 +68,7 @@ func (wl *WhopLoc) HasNext() bool {
 		}
 	}
 	for _, comb := range wl.Method.Combinations {
-		if comb.Primary != nil || comb.Before != nil || comb.After != nil {
+		if comb.Primary != nil {
 			return true
 		}
 	}
